@@ -76,6 +76,22 @@ func verifSelectReset(seed uint64) {
 // (runtime.alginit): a map that saw the same insertions iterates in the same
 // order in every execution of one seed, and in another order under another seed.
 var randEdits = []overlayEdit{
+	// (rand itself is what compiler-generated code calls for the hash seed of a
+	// map whose header lives on the stack - and what os and math/rand reach
+	// through linkname for temporary names and seeding, which must stay random.
+	// The two are told apart by the caller: only calls made from functions of
+	// the code under test or of the harness, on a goroutine's own stack, get
+	// the seeded value.)
+	{"func rand() uint64 {\n", `func rand() uint64 {
+	if seed := verifSelectSeed; seed != 0 {
+		if gp := getg(); gp != nil && gp.m != nil && gp == gp.m.curg && verifUserPC(sys.GetCallerPC()) {
+			seed *= 0x9e3779b97f4a7c15
+			seed ^= seed >> 32
+			return seed * 0xbf58476d1ce4e5b9
+		}
+	}
+`},
+	{"import (\n\t\"internal/byteorder\"\n", "import (\n\t\"internal/byteorder\"\n\t\"internal/runtime/sys\"\n"},
 	// (rand32 is what compiler-generated code calls for the hash seed of a
 	// map whose header lives on the stack.)
 	{"func rand32() uint32 {\n\treturn uint32(rand())\n}\n", `func rand32() uint32 {
@@ -103,6 +119,19 @@ var algEdits = []overlayEdit{
 	{"\tfor i := range key {\n\t\tkey[i] = bootstrapRand()\n\t}\n", "\tfor i := range key {\n\t\tkey[i] = uint64(i+1) * 0x9e3779b97f4a7c15 // verification overlay: fixed key\n\t}\n"},
 }
 
+const randTail = `
+// verifUserPC reports whether pc lies in a function of the code under test or of
+// the verification harness (verification overlay, see rand).
+func verifUserPC(pc uintptr) bool {
+	f := findfunc(pc)
+	if !f.valid() {
+		return false
+	}
+	name := funcname(f)
+	return len(name) > 22 && name[:22] == "github.com/mutagen-io/" || len(name) > 6 && name[:6] == "verif/"
+}
+` + "\n"
+
 type overlayFile struct {
 	name  string
 	edits []overlayEdit
@@ -121,7 +150,7 @@ var overlayFiles = []overlayFile{
 	{"select.go", selectEdits, selectTail},
 	{"runtime2.go", gEdits, ""},
 	{"proc.go", procEdits, ""},
-	{"rand.go", randEdits, ""},
+	{"rand.go", randEdits, randTail},
 	{"alg.go", algEdits, ""},
 }
 
